@@ -30,7 +30,7 @@ func VH_C06_closestN() {
 	targets := make([]fastaio.EncodedFastaRecord, T)
 	cIn := make(chan fastaio.EncodedFastaRecord, T)
 	for n := 0; n < T; n++ {
-		targets[n] = vRecord("t"+strconv.Itoa(n), n, vSymText("t", n, W), true)
+		targets[n] = vRecord(vTargetName(n, T), n, vSymText("t", n, W), true)
 		cIn <- targets[n]
 	}
 	close(cIn)
@@ -154,7 +154,7 @@ func VH_C06_closest() {
 	cIn2 := make(chan fastaio.EncodedFastaRecord, T)
 	for n := 0; n < T; n++ {
 		ttxt[n] = vSymText("t", n, W)
-		targets[n] = vRecord("t"+strconv.Itoa(n), n, ttxt[n], true)
+		targets[n] = vRecord(vTargetName(n, T), n, ttxt[n], true)
 		cIn <- targets[n]
 		cIn2 <- targets[n]
 	}
@@ -276,4 +276,13 @@ func VH_C06_many() {
 	for i := range exp {
 		vAssert("C06.many.documented-order-with-many-ties", res.catchment[i].tname == exp[i])
 	}
+}
+
+// vTargetName: targets are t0, t1, ...; the last one carries the query's own name (the same record name may
+// well occur in the query file and in the target file, with different sequences).
+func vTargetName(n, T int) string {
+	if n == T-1 {
+		return "query"
+	}
+	return "t" + strconv.Itoa(n)
 }
